@@ -215,6 +215,25 @@ fn check_ids_serde_routes(trace: u128, span: u64) -> Vec<Viol> {
             TraceId::deserialize(StringDeserializer::<DeErr>::new(want_t.clone())).ok().map(|x| x.0),
             SpanId::deserialize(StringDeserializer::<DeErr>::new(want_s.clone())).ok().map(|x| x.0),
         ));
+        // a compact (not human-readable) data format: the property names one representation,
+        // fixed-width lowercase hex, not one per kind of format
+        let tt = compact::to_token(&TraceId(trace));
+        let st = compact::to_token(&SpanId(span));
+        res.push((
+            "compact-format",
+            tt.clone().and_then(|t| compact::from_token::<TraceId>(t)).map(|x| x.0),
+            st.clone().and_then(|t| compact::from_token::<SpanId>(t)).map(|x| x.0),
+        ));
+        res.push((
+            "compact-format-text",
+            if tt == Some(compact::Token::Str(want_t.clone())) { Some(trace) } else { None },
+            if st == Some(compact::Token::Str(want_s.clone())) { Some(span) } else { None },
+        ));
+        res.push((
+            "compact-format-from-hex",
+            compact::from_token::<TraceId>(compact::Token::Str(want_t.clone())).map(|x| x.0),
+            compact::from_token::<SpanId>(compact::Token::Str(want_s.clone())).map(|x| x.0),
+        ));
         res.push((
             "borrowed-str",
             TraceId::deserialize(BorrowedStrDeserializer::<DeErr>::new(&want_t)).ok().map(|x| x.0),
@@ -260,4 +279,145 @@ pub fn check_text(text: &str) -> Vec<Viol> {
         out.push(v("fromstr-panic", format!("FromStr/serde panicked on {:?}", text)));
     }
     out
+}
+
+/// A minimal serde data format that is not human readable (`is_human_readable() == false`, as
+/// bincode, postcard or MessagePack report): one scalar token.
+pub mod compact {
+    use serde::de::{self, Visitor};
+    use serde::ser::{self, Impossible};
+    use serde::{Deserialize, Serialize};
+
+    #[derive(Clone, Debug, PartialEq)]
+    pub enum Token {
+        Str(String),
+        Bytes(Vec<u8>),
+        U64(u64),
+        U128(u128),
+        Other(&'static str),
+    }
+
+    #[derive(Debug)]
+    pub struct Error(String);
+    impl std::fmt::Display for Error {
+        fn fmt(&self, f: &mut std::fmt::Formatter<'_>) -> std::fmt::Result {
+            f.write_str(&self.0)
+        }
+    }
+    impl std::error::Error for Error {}
+    impl ser::Error for Error {
+        fn custom<T: std::fmt::Display>(m: T) -> Self {
+            Error(m.to_string())
+        }
+    }
+    impl de::Error for Error {
+        fn custom<T: std::fmt::Display>(m: T) -> Self {
+            Error(m.to_string())
+        }
+    }
+
+    pub struct Ser;
+    macro_rules! other {
+        ($($f:ident($t:ty)),*) => { $(fn $f(self, _v: $t) -> Result<Token, Error> { Ok(Token::Other(stringify!($f))) })* };
+    }
+    impl ser::Serializer for Ser {
+        type Ok = Token;
+        type Error = Error;
+        type SerializeSeq = Impossible<Token, Error>;
+        type SerializeTuple = Impossible<Token, Error>;
+        type SerializeTupleStruct = Impossible<Token, Error>;
+        type SerializeTupleVariant = Impossible<Token, Error>;
+        type SerializeMap = Impossible<Token, Error>;
+        type SerializeStruct = Impossible<Token, Error>;
+        type SerializeStructVariant = Impossible<Token, Error>;
+        fn is_human_readable(&self) -> bool {
+            false
+        }
+        fn serialize_str(self, v: &str) -> Result<Token, Error> {
+            Ok(Token::Str(v.to_string()))
+        }
+        fn serialize_bytes(self, v: &[u8]) -> Result<Token, Error> {
+            Ok(Token::Bytes(v.to_vec()))
+        }
+        fn serialize_u64(self, v: u64) -> Result<Token, Error> {
+            Ok(Token::U64(v))
+        }
+        fn serialize_u128(self, v: u128) -> Result<Token, Error> {
+            Ok(Token::U128(v))
+        }
+        other!(serialize_bool(bool), serialize_i8(i8), serialize_i16(i16), serialize_i32(i32), serialize_i64(i64), serialize_u8(u8), serialize_u16(u16), serialize_u32(u32), serialize_f32(f32), serialize_f64(f64), serialize_char(char));
+        fn serialize_none(self) -> Result<Token, Error> {
+            Ok(Token::Other("none"))
+        }
+        fn serialize_some<T: ?Sized + Serialize>(self, v: &T) -> Result<Token, Error> {
+            v.serialize(Ser)
+        }
+        fn serialize_unit(self) -> Result<Token, Error> {
+            Ok(Token::Other("unit"))
+        }
+        fn serialize_unit_struct(self, _n: &'static str) -> Result<Token, Error> {
+            Ok(Token::Other("unit_struct"))
+        }
+        fn serialize_unit_variant(self, _n: &'static str, _i: u32, _v: &'static str) -> Result<Token, Error> {
+            Ok(Token::Other("unit_variant"))
+        }
+        fn serialize_newtype_struct<T: ?Sized + Serialize>(self, _n: &'static str, v: &T) -> Result<Token, Error> {
+            v.serialize(Ser)
+        }
+        fn serialize_newtype_variant<T: ?Sized + Serialize>(self, _n: &'static str, _i: u32, _v: &'static str, _x: &T) -> Result<Token, Error> {
+            Ok(Token::Other("newtype_variant"))
+        }
+        fn serialize_seq(self, _l: Option<usize>) -> Result<Self::SerializeSeq, Error> {
+            Err(Error("seq".into()))
+        }
+        fn serialize_tuple(self, _l: usize) -> Result<Self::SerializeTuple, Error> {
+            Err(Error("tuple".into()))
+        }
+        fn serialize_tuple_struct(self, _n: &'static str, _l: usize) -> Result<Self::SerializeTupleStruct, Error> {
+            Err(Error("tuple_struct".into()))
+        }
+        fn serialize_tuple_variant(self, _n: &'static str, _i: u32, _v: &'static str, _l: usize) -> Result<Self::SerializeTupleVariant, Error> {
+            Err(Error("tuple_variant".into()))
+        }
+        fn serialize_map(self, _l: Option<usize>) -> Result<Self::SerializeMap, Error> {
+            Err(Error("map".into()))
+        }
+        fn serialize_struct(self, _n: &'static str, _l: usize) -> Result<Self::SerializeStruct, Error> {
+            Err(Error("struct".into()))
+        }
+        fn serialize_struct_variant(self, _n: &'static str, _i: u32, _v: &'static str, _l: usize) -> Result<Self::SerializeStructVariant, Error> {
+            Err(Error("struct_variant".into()))
+        }
+    }
+
+    pub struct De(pub Token);
+    impl<'de> de::Deserializer<'de> for De {
+        type Error = Error;
+        fn is_human_readable(&self) -> bool {
+            false
+        }
+        fn deserialize_any<V: Visitor<'de>>(self, v: V) -> Result<V::Value, Error> {
+            match self.0 {
+                Token::Str(s) => v.visit_string(s),
+                Token::Bytes(b) => v.visit_byte_buf(b),
+                Token::U64(x) => v.visit_u64(x),
+                Token::U128(x) => v.visit_u128(x),
+                Token::Other(k) => Err(Error(format!("unsupported token {}", k))),
+            }
+        }
+        fn deserialize_newtype_struct<V: Visitor<'de>>(self, _n: &'static str, v: V) -> Result<V::Value, Error> {
+            v.visit_newtype_struct(self)
+        }
+        serde::forward_to_deserialize_any! {
+            bool i8 i16 i32 i64 i128 u8 u16 u32 u64 u128 f32 f64 char str string bytes byte_buf option unit
+            unit_struct seq tuple tuple_struct map struct enum identifier ignored_any
+        }
+    }
+
+    pub fn to_token<T: Serialize>(v: &T) -> Option<Token> {
+        v.serialize(Ser).ok()
+    }
+    pub fn from_token<T: for<'de> Deserialize<'de>>(t: Token) -> Option<T> {
+        T::deserialize(De(t)).ok()
+    }
 }
